@@ -1,9 +1,9 @@
 #!/bin/sh
 # Runs the thorough tier of the given checks (default: all) one after the other; meant for `vp run -- tools/run_thorough.sh`.
 cd "$(dirname "$0")/.."
-mkdir -p /tmp/ev-thorough2
+mkdir -p /tmp/ev-thorough3
 for c in ${@:-C01 C02 C03 C04 C05 C06 C07 C08 C09 C10 C11 C12 C13 C14 C15 C16 C17 C18 C19 C20}; do
   start=$(date +%s)
-  VERIF_EVIDENCE_DIR=/tmp/ev-thorough2 ./check $c --tier thorough > /tmp/thorough2-$c.log 2>&1
-  echo "$c rc=$? $(( $(date +%s) - start ))s $(tail -1 /tmp/thorough2-$c.log | cut -c1-220)"
+  VERIF_EVIDENCE_DIR=/tmp/ev-thorough3 ./check $c --tier thorough > /tmp/thorough3-$c.log 2>&1
+  echo "$c rc=$? $(( $(date +%s) - start ))s $(tail -1 /tmp/thorough3-$c.log | cut -c1-220)"
 done
